@@ -102,15 +102,23 @@ Definition rw_rename (i : ditem) : option doc :=
   let vals1 := flat_map rename_ref (i_vals i) in
   let vals2 := match i_field i with None => map kw_value vals1 | Some _ => vals1 end in
   Some match (if fm (i_field i) then afn (i_field i) else FNone) with
-       | FNone => Entry (mkI (i_field i) vals1 (i_all i) (i_neg i))
-       | FOne t => Entry (mkI (Some t) vals2 (i_all i) (i_neg i))
-       | FMany ts => wrap_neg (i_neg i) (Any (map (fun t => Entry (mkI (Some t) vals2 (i_all i) false)) ts))
+       | FNone => Entry (mkI (i_field i) vals1 (i_all i) (i_neg i) (i_applied i))
+       | FOne t => Entry (mkI (Some t) vals2 (i_all i) (i_neg i) (i_applied i))
+       | FMany ts => wrap_neg (i_neg i) (Any (map (fun t => Entry (mkI (Some t) vals2 (i_all i) false (i_applied i))) ts))
        end.
+(* the entry is rewritten (and then carries the mark of the processing item) iff its field is renamed or
+   one of its field references lies in the scope of the item *)
+Definition touch_rename (i : ditem) : bool :=
+  (fres_some (afn (i_field i)) && fm (i_field i)) ||
+  existsb (fun v => match v with V (ARef g _ _) => fm (Some g) | _ => false end) (i_vals i).
 End Rename.
 
 (* ---------- value rewrites: every value is replaced, inside its value list, by tvs f v ---------- *)
 Definition rw_values (tvs : option str -> value -> list value) (i : ditem) : option doc :=
-  Some (Entry (mkI (i_field i) (flat_map (tvs (i_field i)) (i_vals i)) (i_all i) (i_neg i))).
+  Some (Entry (mkI (i_field i) (flat_map (tvs (i_field i)) (i_vals i)) (i_all i) (i_neg i) (i_applied i))).
+(* a value rewrite touches an entry iff it applies to one of its values *)
+Definition touch_values (tv : option str -> value -> option (list value)) (i : ditem) : bool :=
+  existsb (fun v => is_some (tv (i_field i) v)) (i_vals i).
 Definition tvs_of (tv : option str -> value -> option (list value)) (f : option str) (v : value) : list value :=
   match tv f v with Some l => l | None => [v] end.
 
@@ -132,23 +140,37 @@ End ReplaceSpec.
 Definition scoped (im : ditem -> bool) (r : ditem -> option doc) (i : ditem) : option doc :=
   if im i then r i else Some (Entry i).
 
+(* bookkeeping that later processing items can refer to (processing_item_applied): every entry of the
+   fragment that replaces a touched entry is marked with the identifier of the processing item *)
+Fixpoint mark_doc (id : option str) (d : doc) : doc :=
+  match d with
+  | Entry i => Entry (mark_item id i)
+  | All l => All (map (mark_doc id) l)
+  | Any l => Any (map (mark_doc id) l)
+  | Neg d => Neg (mark_doc id d)
+  end.
+Definition smarked (id : option str) (touch : ditem -> bool) (r : ditem -> option doc) (i : ditem) : option doc :=
+  if touch i then option_map (mark_doc id) (r i) else r i.
+
 (* the documented rewrite of one processing item, entry by entry *)
 Definition rw_tspec (c : conds) (t : tspec) : ditem -> option doc :=
+  let rv tv := smarked (c_id c) (touch_values tv) (rw_values (tvs_of tv)) in
+  let rn afn := smarked (c_id c) (touch_rename (fm_of c) afn) (rw_rename (fm_of c) afn) in
   scoped (im_of c)
     match t with
-    | TFieldMap m => rw_rename (fm_of c) (afn_mapping m)
-    | TPrefixMap m => rw_rename (fm_of c) (afn_prefixmap m)
-    | TPrefix p => rw_rename (fm_of c) (afn_prefix p)
-    | TSuffix s => rw_rename (fm_of c) (afn_suffix s)
+    | TFieldMap m => rn (afn_mapping m)
+    | TPrefixMap m => rn (afn_prefixmap m)
+    | TPrefix p => rn (afn_prefix p)
+    | TSuffix s => rn (afn_suffix s)
     | TDrop => fun _ => None
     | TAddCond _ _ _ => fun i => Some (Entry i)
-    | TSetValue a => rw_values (fun _ _ => [V a])
-    | TCase m => rw_values (tvs_of (tv_case m))
-    | TMapString m => rw_values (tvs_of (tv_mapstring m))
-    | TReplace tbl => rw_values (tvs_replace (tbl_sub tbl))
-    | TConvertStr => rw_values (tvs_of tv_convert_str)
-    | TWildPh k => rw_values (tvs_of (tv_placeholder k repl_wild))
-    | TValuePh k vars => rw_values (tvs_of (tv_placeholder k (repl_vars vars)))
+    | TSetValue a => rv (tv_set a)
+    | TCase m => rv (tv_case m)
+    | TMapString m => rv (tv_mapstring m)
+    | TReplace tbl => smarked (c_id c) (touch_values (tv_replace (tbl_sub tbl))) (rw_values (tvs_replace (tbl_sub tbl)))
+    | TConvertStr => rv tv_convert_str
+    | TWildPh k => rv (tv_placeholder k repl_wild)
+    | TValuePh k vars => rv (tv_placeholder k (repl_vars vars))
     | TNoop => fun i => Some (Entry i)
     end.
 
@@ -158,7 +180,7 @@ Definition rdocs_of (r : rule) : rdocs := map (fun p => (fst p, doc_of (snd p)))
 
 Definition rewrite_tspec (c : conds) (t : tspec) (ds : rdocs) : rdocs :=
   match t with
-  | TAddCond name d _ => dict_set name (doc_of d) ds    (* add the detection; the condition becomes name and (cond) *)
+  | TAddCond name d _ => dict_set name (mark_doc (c_id c) (doc_of d)) ds    (* add the detection; the condition becomes name and (cond) *)
   | _ => map (fun p => (fst p, subst_top (rw_tspec c t) (snd p))) ds
   end.
 Definition rewrite_item (it : conds * tspec) (ds : rdocs) : rdocs :=
